@@ -201,14 +201,14 @@ example : selOf [(⟨5, 1, "a"⟩ : Entry String), ⟨3, 2, "b"⟩, ⟨9, 429496
 variable {κ ε ν : Type}
 
 /-- **Only the hash.** The backend index depends on the first eight hash bytes only: not on the
-instance name, the size, or the rest of the hash. -/
+instance name, the digest function, the size, or the rest of the hash. -/
 theorem C12_only_hash (sel : List (Entry Nat)) (d₁ d₂ : Digest)
     (h : d₁.hashBytes.take 8 = d₂.hashBytes.take 8) : shardOf sel d₁ = shardOf sel d₂ := by
   unfold shardOf be64
   rw [h]
 
-example : shardOf [⟨3, 2, 1⟩, ⟨5, 1, 0⟩] ⟨"x", [1, 2, 3, 4, 5, 6, 7, 8, 9], 10⟩
-    = shardOf [⟨3, 2, 1⟩, ⟨5, 1, 0⟩] ⟨"other/instance", [1, 2, 3, 4, 5, 6, 7, 8, 200, 201], 77⟩ :=
+example : shardOf [⟨3, 2, 1⟩, ⟨5, 1, 0⟩] ⟨"x", 1, [1, 2, 3, 4, 5, 6, 7, 8, 9], 10⟩
+    = shardOf [⟨3, 2, 1⟩, ⟨5, 1, 0⟩] ⟨"other/instance", 10, [1, 2, 3, 4, 5, 6, 7, 8, 200, 201], 77⟩ :=
   C12_only_hash _ _ _ (by decide)
 
 /-- `Get`, `Put` and `FindMissing` for digests that agree on the first eight hash bytes address
